@@ -58,6 +58,18 @@ func vfMetaB(b bool) int {
 	return 0
 }
 
+// vfMetaLoop: the address every listener of this harness binds — a loopback address PRIVATE to this process
+// (127.a.b.c derived from the pid, port chosen by the kernel) instead of 127.0.0.1.  Reason (round 11, false alarm
+// `correspondence generated: idle` in a thorough run): the kernel recycles ephemeral ports, and a client of ANOTHER check
+// running on the same host at the same time that still reconnects to 127.0.0.1:<port of a daemon that is gone> (observed:
+// the nsq_to_nsq harness's producer, destination topic `dst`) reaches OUR daemon once it got that port — its publish created
+// a topic the script never asked for (file and memory agreed, the model disagreed).  A listener bound to 127.a.b.c is not
+// reachable through 127.0.0.1; the whole 127/8 is local on Linux.
+func vfMetaLoop() string {
+	p := os.Getpid()
+	return fmt.Sprintf("127.%d.%d.%d:0", 1+(p>>16)%250, (p>>8)&255, 1+p%254)
+}
+
 func vfMetaArm(point string, k int64) {
 	var cnt int64
 	VerifSetHook(point, func(string) {
@@ -109,8 +121,8 @@ func TestVerifMetaDaemon(t *testing.T) {
 	opts.Logger = log.New(lf, "", log.Lmicroseconds)
 	opts.LogLevel = LOG_WARN
 	opts.DataPath = dir
-	opts.TCPAddress = "127.0.0.1:0"
-	opts.HTTPAddress = "127.0.0.1:0"
+	opts.TCPAddress = vfMetaLoop()
+	opts.HTTPAddress = vfMetaLoop()
 	n, err := New(opts)
 	if err != nil {
 		fail(3, "new: "+err.Error())
@@ -278,7 +290,7 @@ func TestVerifMetaDaemon(t *testing.T) {
 		vfMetaForce(r.URL.Query().Get("point"))
 		io.WriteString(w, "ok")
 	})
-	l, err := net.Listen("tcp", "127.0.0.1:0")
+	l, err := net.Listen("tcp", vfMetaLoop())
 	if err != nil {
 		fail(7, err.Error())
 	}
@@ -560,8 +572,8 @@ func (r *vfMetaRun) exec(line string) {
 			o := NewOptions()
 			o.Logger = log.New(io.Discard, "", 0)
 			o.DataPath = r.dir
-			o.TCPAddress = "127.0.0.1:0"
-			o.HTTPAddress = "127.0.0.1:0"
+			o.TCPAddress = vfMetaLoop()
+			o.HTTPAddress = vfMetaLoop()
 			if n2, err := New(o); err == nil {
 				n2.tcpListener.Close()
 				n2.httpListener.Close()
@@ -1179,8 +1191,8 @@ func TestVerifMetaCutObservation(t *testing.T) {
 	opts := NewOptions()
 	opts.Logger = log.New(io.Discard, "", 0)
 	opts.DataPath = t.TempDir()
-	opts.TCPAddress = "127.0.0.1:0"
-	opts.HTTPAddress = "127.0.0.1:0"
+	opts.TCPAddress = vfMetaLoop()
+	opts.HTTPAddress = vfMetaLoop()
 	n, err := New(opts)
 	if err != nil {
 		t.Fatal(err)
@@ -1262,35 +1274,151 @@ func TestVerifMetaCutObservation(t *testing.T) {
 	restart := "not-run"
 	if doc, ok := exampleDoc.Load().([]byte); ok {
 		c, _ := exampleChan.Load().(string)
-		opts2 := NewOptions()
-		opts2.Logger = log.New(io.Discard, "", 0)
-		opts2.DataPath = t.TempDir()
-		opts2.TCPAddress = "127.0.0.1:0"
-		opts2.HTTPAddress = "127.0.0.1:0"
-		os.WriteFile(filepath.Join(opts2.DataPath, "nsqd.dat"), doc, 0600)
-		n2, err := New(opts2)
-		if err != nil {
-			restart = "new-failed"
-		} else if err := n2.LoadMetadata(); err != nil {
-			restart = "load-failed"
-			n2.Exit()
-		} else {
-			inA, inB := false, false
-			if ta, err := n2.GetExistingTopic("cuta"); err == nil {
-				_, e := ta.GetExistingChannel(c)
-				inA = e == nil
-			}
-			if tb, err := n2.GetExistingTopic("cutb"); err == nil {
-				_, e := tb.GetExistingChannel(c)
-				inB = e == nil
-			}
-			restart = fmt.Sprintf("loaded:cutb_has=%v:cuta_has=%v", inB, inA)
-			if inB && !inA {
-				restart = "loaded-never-passed-state"
-			}
-			n2.Exit()
-		}
+		restart = vfMetaRestartFrom(t, doc, c)
 	}
 	fmt.Printf("OBSERVATION global-cut snapshots=%d channel_pairs=%d non_global_cut_snapshots=%d restart_from_that_file=%s %s\n",
 		atomic.LoadInt64(&persists), created, atomic.LoadInt64(&nonCut), restart, ex)
+}
+
+// vfMetaRestartFrom starts a daemon on a data path holding exactly `doc` as nsqd.dat (what a SIGKILL while that document
+// was the file leaves for the restart) and reports whether it loads cutb/c WITHOUT cuta/c.
+func vfMetaRestartFrom(t *testing.T, doc []byte, c string) string {
+	opts2 := NewOptions()
+	opts2.Logger = log.New(io.Discard, "", 0)
+	opts2.DataPath = t.TempDir()
+	opts2.TCPAddress = vfMetaLoop()
+	opts2.HTTPAddress = vfMetaLoop()
+	os.WriteFile(filepath.Join(opts2.DataPath, "nsqd.dat"), doc, 0600)
+	n2, err := New(opts2)
+	if err != nil {
+		return "new-failed"
+	}
+	defer n2.Exit()
+	if err := n2.LoadMetadata(); err != nil {
+		return "load-failed"
+	}
+	inA, inB := false, false
+	if ta, err := n2.GetExistingTopic("cuta"); err == nil {
+		_, e := ta.GetExistingChannel(c)
+		inA = e == nil
+	}
+	if tb, err := n2.GetExistingTopic("cutb"); err == nil {
+		_, e := tb.GetExistingChannel(c)
+		inB = e == nil
+	}
+	if inB && !inA {
+		return "loaded-never-passed-state"
+	}
+	return fmt.Sprintf("loaded:cutb_has=%v:cuta_has=%v", inB, inA)
+}
+
+// vfMetaParkedInGetMetadata: some goroutine is inside NSQD.GetMetadata waiting for a topic lock (white-box, no clock)
+func vfMetaParkedInGetMetadata() bool {
+	buf := make([]byte, 1<<20)
+	n := runtime.Stack(buf, true)
+	for _, g := range strings.Split(string(buf[:n]), "\n\n") {
+		if strings.Contains(g, "(*NSQD).GetMetadata") && strings.Contains(g, "sync.(*RWMutex).Lock") {
+			return true
+		}
+	}
+	return false
+}
+
+// TestVerifMetaCutSteered — claim audit 2, item 33: the schedule `Nsq.Props.C06.cutSchedule` FORCED on the real code (the
+// unsteered TestVerifMetaCutObservation meets it in a few of several hundred documents, or not at all).  No hook point lies
+// inside GetMetadata, so the persist is parked where the schedule needs it by the lock it waits for:
+//
+//	G: Topic.GetChannel(cutb, k)  — its first statement, t.Lock()                       [the harness takes cutb's lock]
+//	P: n.Lock(); PersistMetadata() (what Notify's goroutine does): GetMetadata reads cuta (no k), waits for cutb's lock
+//	A: Topic.GetChannel(cuta, k)  — the whole real function                             [.mem createChan a]
+//	G: … getOrCreateChannel(k); t.Unlock(); channelUpdateChan <- 1                      [.mem createChan b]
+//	P: reads cutb (with k), marshals, writes, renames: nsqd.dat lists cutb/k but not cuta/k
+//
+// Every live state has chans(cutb) ⊆ chans(cuta) (k enters cuta's map before cutb's).  Go's map iteration may visit cutb
+// first (then P parks before it read cuta and the document is a global cut): the attempt is repeated with the next k.
+func TestVerifMetaCutSteered(t *testing.T) {
+	if os.Getenv("VERIF_META_DAEMON") == "1" {
+		t.Skip()
+	}
+	opts := NewOptions()
+	opts.Logger = log.New(io.Discard, "", 0)
+	opts.DataPath = t.TempDir()
+	opts.TCPAddress = vfMetaLoop()
+	opts.HTTPAddress = vfMetaLoop()
+	n, err := New(opts)
+	if err != nil {
+		t.Fatal(err)
+	}
+	go n.Main()
+	defer n.Exit()
+	a, b := n.GetTopic("cuta"), n.GetTopic("cutb")
+	idle := func() {
+		for i := 0; i < 1000 && !vfMetaIdle(); i++ {
+			time.Sleep(2 * time.Millisecond)
+		}
+	}
+	var doc []byte
+	ch, ex, attempts, parkedN := "", "", 0, 0
+	for i := 0; i < vfEnvInt("VERIF_CUT_ATTEMPTS", 24) && doc == nil; i++ {
+		idle()
+		attempts++
+		name := fmt.Sprintf("k%d", i)
+		b.Lock() // G, first statement of Topic.GetChannel
+		got := make(chan []byte, 1)
+		go func() { // P
+			n.Lock()
+			var raw []byte
+			if n.PersistMetadata() == nil {
+				raw, _ = os.ReadFile(filepath.Join(opts.DataPath, "nsqd.dat"))
+			}
+			n.Unlock()
+			got <- raw
+		}()
+		parked := false
+		for j := 0; j < 5000 && !parked; j++ {
+			if parked = vfMetaParkedInGetMetadata(); !parked {
+				time.Sleep(time.Millisecond)
+			}
+		}
+		if parked {
+			parkedN++
+		}
+		a.GetChannel(name) // A
+		_, isNew := b.getOrCreateChannel(name)
+		b.Unlock()
+		if isNew {
+			select {
+			case b.channelUpdateChan <- 1:
+			case <-b.exitChan:
+			}
+		}
+		raw := <-got
+		var m Metadata
+		if raw == nil || json.Unmarshal(raw, &m) != nil {
+			continue
+		}
+		inA, inB, la, lb := false, false, 0, 0
+		for _, tm := range m.Topics {
+			for _, c := range tm.Channels {
+				if tm.Name == "cuta" {
+					la++
+					inA = inA || c.Name == name
+				}
+				if tm.Name == "cutb" {
+					lb++
+					inB = inB || c.Name == name
+				}
+			}
+		}
+		if inB && !inA {
+			doc, ch = raw, name
+			ex = fmt.Sprintf("document lists cutb/%s but not cuta/%s (cuta has %d channels, cutb %d)", name, name, la, lb)
+		}
+	}
+	idle()
+	restart := "not-run"
+	if doc != nil {
+		restart = vfMetaRestartFrom(t, doc, ch)
+	}
+	fmt.Printf("OBSERVATION global-cut-steered attempts=%d parked=%d restart_from_that_file=%s %s\n", attempts, parkedN, restart, ex)
 }
